@@ -139,6 +139,16 @@ def mapfile_cases(rng):
             base.append('!anmmap\n!enum(name="%s")\n%s' % (en, body))
     base += ['!anmmap\n!gvar_names\n10000 true\n', '!anmmap\n!gvar_names\n10000 PI\n', '!anmmap\n!ins_names\n900 true\n', '!anmmap\n!gvar_names\n10000 sprite0\n10001 script0\n',
              '!anmmap\n!difficulty_flags\n0 true-\n']
+    # gamemaps: files that name other mapfiles per game (12 = the game the ANM cases are compiled for): chains, cycles, missing files
+    plain = '!anmmap\n!ins_names\n900 foo\n!ins_signatures\n900 SSf\n'
+    base += ['!gamemap\n!game_files\n12 other.map\n@@FILE other.map\n' + plain,
+             '!gamemap\n!game_files\n12 user.map\n',                                                                   # lists itself
+             '!gamemap\n!game_files\n12 other.map\n@@FILE other.map\n!gamemap\n!game_files\n12 user.map\n',            # a -> b -> a
+             '!gamemap\n!game_files\n12 other.map\n@@FILE other.map\n!gamemap\n!game_files\n12 third.map\n@@FILE third.map\n' + plain,   # a -> b -> plain
+             '!gamemap\n!game_files\n12 other.map\n@@FILE other.map\n!gamemap\n!game_files\n12 third.map\n@@FILE third.map\n!gamemap\n!game_files\n12 other.map\n',
+             '!gamemap\n!game_files\n12 missing.map\n', '!gamemap\n!game_files\n7 other.map\n@@FILE other.map\n' + plain, '!gamemap\n!game_files\n12 ./user.map\n',
+             '!gamemap\n!game_files\n12 other.map\n12 third.map\n@@FILE other.map\n' + plain, '!gamemap\n!game_files\n12 \n', '!gamemap\n!game_files\n12 ..\n', '!gamemap\n!game_files\n12 /\n',
+             '!gamemap\n!ins_names\n900 foo\n', '!gamemap\n!game_files\n99999 other.map\n', '!gamemap\n!game_files\n12 other.map\n@@FILE other.map\n!eclmap\n!ins_names\n900 foo\n']
     out = list(base)
     for b in base[:12]:
         for _ in range(2):
@@ -152,6 +162,15 @@ def mapfile_cases(rng):
             i = rng.randrange(len(b) + 1)
             out.append(b[:i] + rng.pick(['\u00e9', '\u65e5\u672c', '\u03b8', '\u202e', '\U0001f600']) + b[i:])
     return out
+
+def split_mapfiles(text):
+    """A mapfile case may consist of several files: `main text` followed by `@@FILE name` sections (gamemaps refer to other files by
+    a path relative to themselves).  -> (main text, [(name, text)])"""
+    parts = text.split('\n@@FILE ')
+    extra = []
+    for p in parts[1:]:
+        name, _, body = p.partition('\n'); extra.append((name.strip(), body))
+    return parts[0], extra
 
 def run_shard(ctx):
     r = ctx.rng
@@ -247,7 +266,9 @@ def run_shard(ctx):
         job = {'tool': tool, 'cmd': 'compile', 'game': game, 'in': src, 'out': out}
         if msg_mode: job['msg_mode'] = msg_mode
         if mapfile is not None:
-            job['maps'] = [ctx.write('user.map', mapfile.encode('utf-8', 'surrogateescape'))]
+            main, extra = split_mapfiles(mapfile)
+            for name, body in extra: ctx.write(name, body.encode('utf-8', 'surrogateescape'))
+            job['maps'] = [ctx.write('user.map', main.encode('utf-8', 'surrogateescape'))]
         resp = ctx.cli(job)
         ctx.evaluations += 1
         replay = {'job': dict(job, **{'in': 'in.txt', 'out': 'out.bin', 'maps': ['user.map'] if mapfile is not None else []}),
@@ -274,7 +295,9 @@ def replay(path):
         open(os.path.join(d, 'in.txt'), 'wb').write(rec['text'].encode('utf-8', 'surrogateescape'))
         job['in'] = os.path.join(d, 'in.txt'); job['out'] = os.path.join(d, 'out.bin')
         if rec.get('mapfile') is not None:
-            open(os.path.join(d, 'user.map'), 'wb').write(rec['mapfile'].encode('utf-8', 'surrogateescape')); job['maps'] = [os.path.join(d, 'user.map')]
+            main, extra = split_mapfiles(rec['mapfile'])
+            for name, body in extra: open(os.path.join(d, name), 'wb').write(body.encode('utf-8', 'surrogateescape'))
+            open(os.path.join(d, 'user.map'), 'wb').write(main.encode('utf-8', 'surrogateescape')); job['maps'] = [os.path.join(d, 'user.map')]
         else: job.pop('maps', None)
         rc, out, err = core.run_vtruth(core.job_argv(job), rec.get('profile', 'dev'))
         print('argv:', ' '.join(core.job_argv(job))); print('exit status:', rc); print(err[-3000:])
